@@ -38,6 +38,7 @@ pub fn mutant_universe(mut u: Universe, seed: u64) -> Universe {
     u.label = format!("m{}", u.label);
     let n_subjects = u.subjects.len();
     vmodel::mutate::add_mutants(&mut u, &mut src, 2, 2);
+    vmodel::mutate::add_unit_variant_mutants(&mut u, 8);
     vmodel::mutate::add_align_pairs(&mut u, 12);
     vmodel::mutate::add_twins(&mut u, &mut src, 6);
     // one dedicated pair per layout-only mutant below `Bound`, whose alignment hash does not recurse (O9)
